@@ -266,14 +266,14 @@ BYNAME_USERS = ["operator_dict.OperatorDict.__call__", "operator_dict.OperatorDi
                 "taperecorder.TapeRecorder.binary_operator", "taperecorder.TapeRecorder.unary_operator"]
 
 
-@rule("C09.by-name-twin", props=["C09", "C13", "C12"], min_instances=8, mutants=[
+@rule("C09.by-name-twin", props=["C09", "C13", "C12"], min_instances=6, mutants=[
     ("by-name call uses the codegen name", ("operator_dict", "            values_out = self.algebra.numspace[func.__name__](mv.values())",
                                             "            values_out = self.algebra.numspace[self.codegen.__name__](mv.values())")),
 ])
 def by_name_twin(ctx):
     """Every by-name use (wrapper dispatch, emitted call source) names the function of the cache entry just looked up."""
     for q in BYNAME_USERS:
-        fn = ctx.func(q)
+        fn = inline_self_calls(ctx.repo, q.rsplit(".", 1)[0], ctx.func(q))
         # variables bound to the function of a cache lookup:  keys_out, func = self[...]
         func_vars = set()
         for n in walk_shallow(fn):
@@ -300,6 +300,8 @@ def by_name_twin(ctx):
                     ctx.violation(c, f"by-name use {un(n)[:80]!r} does not name the function of the cache entry looked up "
                                      f"in this call (expected <func>.__name__ of `keys_out, func = self[...]`): it can "
                                      f"resolve to a function compiled for different operands", n)
+        if k == 0:
+            raise Unknown(q, "no by-name use (numspace lookup / emitted call) found in a function that dispatches by name", fn)
 
 
 # --------------------------------------------------------------------------- exception-atomic
@@ -493,8 +495,40 @@ def storage_writers(ctx):
     ("exec in module globals", ("codegen", "    exec(c, {}, func_locals)", "    exec(c, globals(), func_locals)")),
 ])
 def closed_functions(ctx):
-    """Generated functions execute with a fresh literal globals dict or the algebra's own name space."""
-    for mname, qual, fn in ctx.repo.all_functions():
+    """Generated functions execute with a fresh literal globals dict or the algebra's own name space (a globals
+    argument that is a parameter of the executing helper is followed to every call site of that helper)."""
+    from ..astx import _bind_call
+    repo = ctx.repo
+    funcs = list(repo.all_functions())
+
+    def classify(g, c, site, mname, qual, fn, level):
+        if isinstance(g, ast.Dict) and all(isinstance(k, ast.Constant) for k in g.keys):
+            ctx.ok(c, site, module=mname, globals=un(g)[:80])
+        elif isinstance(g, ast.Attribute) and g.attr == NUMSPACE:
+            ctx.ok(c, site, module=mname, globals=un(g))
+        elif isinstance(g, ast.Call) and call_name(g) in ("globals", "vars", "locals"):
+            ctx.violation(c, f"generated code is executed with {un(g)} as globals: it can read and be affected by "
+                             f"mutable module state", site, module=mname)
+        elif isinstance(g, ast.Name) and g.id in params(fn) and level < 2:
+            # the globals are handed in by the callers of this helper: every call site decides
+            name = qual.split(".")[-1]
+            sites = 0
+            for m2, q2, f2 in funcs:
+                defs2 = single_assignments(f2)
+                for call in [x for x in walk_shallow(f2) if isinstance(x, ast.Call)
+                             and ((isinstance(x.func, ast.Name) and x.func.id == name) or (isinstance(x.func, ast.Attribute) and x.func.attr == name))]:
+                    first = ast.Name(id="self", ctx=ast.Load()) if isinstance(call.func, ast.Attribute) and params(fn)[:1] == ["self"] else None
+                    mapping = _bind_call(fn, call, first)
+                    if mapping is None or g.id not in mapping:
+                        raise Unknown(f"{q2}#exec-globals", f"call {un(call)[:80]!r} of {qual} not understood", call)
+                    sites += 1
+                    classify(inline(mapping[g.id], defs2), f"{q2}#exec-globals", call, m2, q2, f2, level + 1)
+            if sites == 0:
+                raise Unknown(c, f"{qual} executes code with its parameter {g.id!r} as globals but has no call site", site)
+        else:
+            raise Unknown(c, f"unrecognised exec globals {un(g)!r}", site)
+
+    for mname, qual, fn in funcs:
         defs = single_assignments(fn)
         for call in [c for c in walk_shallow(fn) if isinstance(c, ast.Call) and call_name(c) == "exec"]:
             c = f"{qual}#exec-globals"
@@ -502,16 +536,7 @@ def closed_functions(ctx):
                 ctx.violation(c, "exec() without an explicit globals dict runs generated code in the module's own "
                                  "globals (mutable module state becomes visible to generated functions)", call, module=mname)
                 continue
-            g = inline(call.args[1], defs)
-            if isinstance(g, ast.Dict) and all(isinstance(k, ast.Constant) for k in g.keys):
-                ctx.ok(c, call, module=mname, globals=un(g)[:80])
-            elif isinstance(g, ast.Attribute) and g.attr == NUMSPACE:
-                ctx.ok(c, call, module=mname, globals=un(g))
-            elif isinstance(g, ast.Call) and call_name(g) in ("globals", "vars", "locals"):
-                ctx.violation(c, f"generated code is executed with {un(g)} as globals: it can read and be affected by "
-                                 f"mutable module state", call, module=mname)
-            else:
-                raise Unknown(c, f"unrecognised exec globals {un(g)!r}", call)
+            classify(inline(call.args[1], defs), c, call, mname, qual, fn, 0)
 
 
 # --------------------------------------------------------------------------- no hidden module-level state
